@@ -595,28 +595,40 @@ def emit_with_sites(prog):
     """(source, {site: [line, item index, kind, is_async]}) of a program.  Optional prog["flags"]: doc (docstring first, so that None is not
     constant 0), consts=n (n distinct constants before the body: EXTENDED_ARG on later
     LOAD_CONST None and on jumps), closure=1 (parameters, *args/**kw, cell variables) or 2 (also
-    free variables: prog is a closure)."""
+    free variables: prog is a closure), 3 (as 2, plus inlined-comprehension variables named like the
+    free variables), 4 (as 1, plus comprehension variables named like the cell variables)."""
     v = prog["variant"]
     fl = prog.get("flags") or {}
     em = _Emit(v)
     kw = "async def" if v in ASYNC_VARIANTS else "def"
     closure = fl.get("closure", 0)
-    base = "        " if closure == 2 else "    "
+    nested = closure in (2, 3)
+    base = "        " if nested else "    "
     L = em.lines.append
-    if closure == 2:
+    if nested:
         L("def _outer():")
         L("    fv1 = 1")
         L("    fv2 = 2")
         L("    %s prog(arg0=None, *va, kw0=1, **kws):" % kw)
-    elif closure == 1:
+    elif closure in (1, 4):
         L("%s prog(arg0=None, *va, kw0=1, **kws):" % kw)
     else:
         L("%s prog():" % kw)
     if fl.get("doc"):
         L(base + '"""docstring: takes constant slot 0"""')
     if closure:
-        L(base + ("cellv = fv1" if closure == 2 else "cellv = 0"))
-        L(base + ("lam = lambda: (cellv, arg0, fv2)" if closure == 2 else "lam = lambda: (cellv, arg0)"))
+        L(base + ("cellv = fv1" if nested else "cellv = 0"))
+        L(base + ("lam = lambda: (cellv, arg0, fv2)" if nested else "lam = lambda: (cellv, arg0)"))
+    if closure == 3:
+        # comprehension variables with the names of free variables that the body also reads:
+        # CPython 3.12 inlines the comprehensions (PEP 709) and the code object then has a local
+        # AND a free variable called fv1 / fv2 (two slots each before the value stack)
+        L(base + "sq = [fv2 * fv2 for fv2 in range(3)]")
+        L(base + "sd = {fv1: cellv for fv1 in range(2)}")
+    if closure == 4:
+        # mirror case: the comprehension variable is a cell variable captured by the lambda
+        L(base + "ss = {cellv + 1 for cellv in range(2)}")
+        L(base + "sl = [arg0 for arg0 in range(2)]")
     for i in range(fl.get("consts", 0)):
         L(base + "k0 = %d.5" % i)
     em.block(prog["body"], base)
@@ -624,7 +636,7 @@ def emit_with_sites(prog):
         L(base + "r((yield 99))")
     if v == "agen" and not any("(yield" in l for l in em.lines):
         L(base + "r((yield 99))")
-    if closure == 2:
+    if nested:
         L("    return prog")
         L("prog = _outer()")
     return "\n".join(em.lines) + "\n", em.sites
@@ -1823,6 +1835,10 @@ def corpus(tier, seed, variants=VARIANTS):
                 fl["closure"] = 1
             elif k < 0.24:
                 fl["closure"] = 2
+            elif k < 0.31:
+                fl["closure"] = 3
+            elif k < 0.36:
+                fl["closure"] = 4
             if rng.random() < 0.04:
                 fl["doc"] = True
                 fl["consts"] = 260
@@ -1833,6 +1849,14 @@ def corpus(tier, seed, variants=VARIANTS):
     st = cfg.get("special_stride", 1)
     off = seed % st if st > 1 else 0
     out.extend(p for i, p in enumerate(sp) if (i + off) % st == 0)
+    # every tier and seed has, per variant, programs whose code object has a local and a free
+    # (resp. cell) variable of the same name
+    for variant in variants:
+        pick = [p for p in sp if p["variant"] == variant and p["flags"].get("closure") in (3, 4) and "consts" not in p["flags"]]
+        for cl in (3, 4):
+            same = [p for p in pick if p["flags"]["closure"] == cl]
+            for j in range(min(2, len(same))):
+                out.append(same[(seed * 2 + j * 5) % len(same)])
     return out
 
 
@@ -1841,7 +1865,7 @@ def special_programs(variants=VARIANTS):
     on jumps), cell/free variables and extra parameters (frame layout), with-expression over
     several lines (NOP after the enter sequence on 3.11)."""
     flagsets = ({"doc": True, "consts": 260}, {"closure": 1}, {"closure": 2},
-                {"closure": 2, "doc": True, "consts": 260})
+                {"closure": 2, "doc": True, "consts": 260}, {"closure": 3}, {"closure": 4})
     for variant in variants:
         itemsets = [[["S", "m"]], [["Sw", "v"], ["G", "m"]], [["Sv", "v"]]]
         if variant in ASYNC_VARIANTS:
